@@ -33,15 +33,19 @@
 (***************************************************************************)
 EXTENDS Integers, Sequences, FiniteSets, TLC, Json
 
-CONSTANTS OGShapes, SCShapes, Pats, OptOuts, Orders, Dump
+CONSTANTS OGShapes, SCShapes, Pats, OptOuts, Orders, Rels, Dump
 
 AllOGShapes == {"none", "website", "article", "profile", "noTitle", "noType", "noUrl", "noImage"}
 AllSCShapes == {"none", "article", "nested", "unsupported", "inUnsupported"}
 AllPats     == {"P", "A", "E", "R0", "R1", "R2", "Q0", "Q1", "Q2"}
 AllOptOuts  == {"absent", "true", "other"}
 AllImgs     == {"none", "prop", "object", "representative", "associated", "imageItem"}
+\* rel="author" anchors / links outside any item (the schema.org parser's last resort for the author):
+\* none, one with text, only ones without text; and which property of the Article item names its author
+AllRels     == {"none", "present", "empty"}
+AllWhos     == {"author", "creator"}
 ASSUME /\ OGShapes \subseteq AllOGShapes /\ SCShapes \subseteq AllSCShapes /\ Pats \subseteq AllPats
-       /\ OptOuts \subseteq AllOptOuts /\ Orders \subseteq 0..5
+       /\ OptOuts \subseteq AllOptOuts /\ Orders \subseteq 0..5 /\ Rels \subseteq AllRels
 
 Status    == {"absent", "empty", "present"}
 Scalar    == {"title", "url", "description", "publisher", "copyright", "author"}  \* values carry their origin
@@ -100,10 +104,15 @@ OGRec(c) == [shape |-> c.shape, pat |-> c.pat, img |-> "none", f |-> OGF(c.shape
 \* ---- schema.org ----------------------------------------------------------
 SCHasArticle(shape) == shape \in {"article", "nested", "inUnsupported"}
 DefaultImg(shape) == CASE shape = "article" -> "prop" [] shape = "nested" -> "associated" [] OTHER -> "imageItem"
-SCF(shape, pat, img) ==
+\* the author: the Article item's author (or creator) property, else the first rel=author element with text
+SCF(shape, pat, img, rel) ==
     [f \in Fields |->
         CASE f = "images" -> IF img = "none" THEN "absent" ELSE "present"
           [] f = "type"   -> IF SCHasArticle(shape) THEN "present" ELSE "absent"
+          [] f = "author" -> IF SCHasArticle(shape) /\ St(pat, f) = "present" THEN "present"
+                             ELSE IF rel = "present" THEN "present"
+                             ELSE IF rel = "empty" THEN "empty"
+                             ELSE IF SCHasArticle(shape) THEN St(pat, f) ELSE "absent"
           [] OTHER        -> IF SCHasArticle(shape) THEN St(pat, f) ELSE "absent"]
 SCA(shape, pat) ==
     [a \in ArtFields |->
@@ -111,13 +120,19 @@ SCA(shape, pat) ==
         ELSE CASE a = "expirationTime" -> "absent"              \* schema.org Article has none
                [] a = "authors" -> St(pat, "author")            \* the article's author
                [] OTHER -> St(pat, a)]
-SCConfigs ==
+SCBase ==
     {[shape |-> s, pat |-> "A", img |-> i] : s \in SCShapes \cap {"none"}, i \in {"none", "object", "representative"}}
     \cup {[shape |-> s, pat |-> "A", img |-> i] : s \in SCShapes \cap {"unsupported"}, i \in {"none", "object"}}
     \cup {[shape |-> s, pat |-> "P", img |-> i] : s \in {t \in SCShapes : SCHasArticle(t)}, i \in AllImgs}
     \cup {[shape |-> s, pat |-> q, img |-> IF NoEmpty(St(q, "images")) = "present" THEN DefaultImg(s) ELSE "none"] :
              s \in {t \in SCShapes : SCHasArticle(t)}, q \in Pats \ {"P"}}
-SCRec(c) == [shape |-> c.shape, pat |-> c.pat, img |-> c.img, f |-> SCF(c.shape, c.pat, c.img), a |-> SCA(c.shape, c.pat)]
+SCVariants == {v \in {[rel |-> "none", who |-> "author"], [rel |-> "present", who |-> "creator"],
+                          [rel |-> "present", who |-> "author"], [rel |-> "empty", who |-> "author"]} : v.rel \in Rels}
+SCConfigs == {[shape |-> cv[1].shape, pat |-> cv[1].pat, img |-> cv[1].img, rel |-> cv[2].rel, who |-> cv[2].who] :
+                 cv \in {pr \in SCBase \X SCVariants : IF SCHasArticle(pr[1].shape) THEN ~(pr[2].rel = "present" /\ pr[2].who = "author")
+                                                  ELSE pr[2].who = "author"}}
+SCRec(c) == [shape |-> c.shape, pat |-> c.pat, img |-> c.img, rel |-> c.rel, who |-> c.who,
+             f |-> SCF(c.shape, c.pat, c.img, c.rel), a |-> SCA(c.shape, c.pat)]
 
 \* ---- IE Reading View -----------------------------------------------------
 IEF(pat) ==
@@ -137,6 +152,7 @@ Small(og, sc) == /\ og.pat \in {"P", "A"}
                  /\ og.shape \in {"none", "website", "article", "profile", "noImage"}
                  /\ sc.pat \in {"P", "A"} /\ sc.img \in {"none", "prop", "associated", "object"}
                  /\ sc.shape \in {"none", "article", "nested", "unsupported"}
+                 /\ sc.rel \in {"none", "present"} /\ sc.who = "author"
 
 Params ==
     {[og |-> OGRec(o), schema |-> SCRec(s), ie |-> IERec(q), optout |-> oo, order |-> ord] :
